@@ -280,7 +280,10 @@ def b_dict(I, a, k):
         if isinstance(src, (dict,)) or (isinstance(src, Ref) and src.kind == 'dict'):
             d.update(Mo.dict_cell(I, src))
         else:
-            for kv in Mo.concrete_iter(I, src) or _unsup('dict()'):
+            pairs = Mo.concrete_iter(I, src)
+            if pairs is None:
+                raise Unsupported('dict() of a symbolic-length sequence')
+            for kv in pairs:
                 kk, vv = Mo.concrete_iter(I, kv)
                 d[Mo.hkey(kk)] = vv
     d.update(k)
@@ -517,6 +520,16 @@ def b_reversed(I, a, k):
     return tuple(reversed(items))
 
 
+def b_map(I, a, k):
+    """map(f, seq, ...): evaluated EAGERLY over concrete-length sequences (same values in the same order as the lazy
+    iterator whenever nothing observes the interleaving -- the policy already used for generators)"""
+    f, seqs = a[0], [Mo.concrete_iter(I, s_) for s_ in a[1:]]
+    if not seqs or any(s_ is None for s_ in seqs) or k:
+        raise Unsupported('map over a symbolic-length sequence')
+    I.st.assumptions.add('map() evaluated eagerly (no side effect observable between its items)')
+    return Mo.IterV(tuple(I.call(f, list(args), {}) for args in zip(*seqs)))
+
+
 def b_sorted(I, a, k):
     items = Mo.concrete_iter(I, a[0])
     key = k.get('key')
@@ -743,6 +756,7 @@ def builtins(I):
     reg('enumerate', b_enumerate)
     reg('zip', b_zip)
     reg('reversed', b_reversed)
+    reg('map', b_map)
     reg('sorted', b_sorted)
     reg('pow', b_pow)
     reg('round', b_round)
@@ -810,6 +824,9 @@ def _quant(I, a, isall):
     k = z3.Int(I.st.fresh_name('q'))
     rng = z3.And(k >= zint(lo), k < zint(hi))
     st = I.st
+    empty = z3.simplify(zint(lo) >= zint(hi))
+    if z3.is_true(empty) or (not z3.is_false(empty) and not st.feasible(z3.Not(empty))):
+        return isall                   # an empty range: the body is never evaluated
     st.push(rng)
     old_branch = st.branch
 
@@ -909,16 +926,214 @@ def np_any(I, a, k, isall=False):
     return _tv(I, x)
 
 
+def nd_nested(I, x):
+    """python nested lists (of scalar values) for an array / nested list / tuple whose shape is concrete; None when a
+    length is symbolic.  A scalar is returned as it is."""
+    if isinstance(x, tuple):
+        out = [nd_nested(I, y) for y in x]
+        return None if any(o is None for o in out) else out
+    if Mo.is_list(x):
+        if x.kind != 'clist':
+            return None
+        out = [nd_nested(I, y) for y in I.st.heap[x]]
+        return None if any(o is None for o in out) else out
+    if x is None:
+        return None
+    return x
+
+
+def nd_shape(n):
+    """shape of the nested lists of nd_nested (ragged nestings are an error of the caller: Unsupported)"""
+    if not isinstance(n, list):
+        return ()
+    if not n:
+        return (0,)
+    subs = [nd_shape(y) for y in n]
+    if any(s_ != subs[0] for s_ in subs):
+        raise Unsupported('ragged array')
+    return (len(n),) + subs[0]
+
+
+def nd_build(I, n):
+    if not isinstance(n, list):
+        return n
+    return I.st.alloc('clist', [nd_build(I, y) for y in n], nd=True)
+
+
+def nd_flat(n):
+    if not isinstance(n, list):
+        return [n]
+    out = []
+    for y in n:
+        out.extend(nd_flat(y))
+    return out
+
+
+def nd_reshape(flat, shape):
+    """row-major nested lists of the given shape (one entry may be -1)"""
+    shape = list(shape)
+    if any((not isinstance(d, int)) or isinstance(d, bool) for d in shape):
+        raise Unsupported('reshape to a symbolic shape')
+    known = 1
+    for d in shape:
+        if d != -1:
+            known *= d
+    if shape.count(-1) > 1:
+        raise PyExc('ValueError', 'can only specify one unknown dimension')
+    if -1 in shape:
+        if known == 0 or len(flat) % known:
+            raise PyExc('ValueError', 'cannot reshape array')
+        shape[shape.index(-1)] = len(flat) // known
+    total = 1
+    for d in shape:
+        total *= d
+    if total != len(flat):
+        raise PyExc('ValueError', 'cannot reshape array of size %d into shape %r' % (len(flat), tuple(shape)))
+
+    def build(vals, dims):
+        if not dims:
+            return vals[0]
+        step = len(vals) // dims[0] if dims[0] else 0
+        return [build(vals[i * step:(i + 1) * step], dims[1:]) for i in range(dims[0])]
+    return build(list(flat), shape)
+
+
+def nd_axis_reduce(I, x, axis, f, what):
+    """reduce a concrete-shaped 1-d / 2-d array with f(list of scalars) along `axis` (None: over all entries)"""
+    n = nd_nested(I, x)
+    if n is None:
+        raise Unsupported('%s of an array of symbolic shape' % what)
+    shp = nd_shape(n)
+    if axis is None or len(shp) <= 1:
+        if axis not in (None, 0, -1):
+            raise PyExc('AxisError', 'axis out of bounds')
+        return f(nd_flat(n))
+    if not isinstance(axis, int) or isinstance(axis, bool) or not -len(shp) <= axis < len(shp):
+        raise PyExc('AxisError', 'axis out of bounds')
+
+    def red(sub, ax):
+        if ax == 0:
+            def leaves(parts):
+                if isinstance(parts[0], list):
+                    return [leaves([p_[j] for p_ in parts]) for j in range(len(parts[0]))]
+                return f(list(parts))
+            if not sub:
+                raise Unsupported('%s along an empty axis' % what)
+            return leaves(sub)
+        return [red(y, ax - 1) for y in sub]
+    return nd_build(I, red(n, axis % len(shp)))
+
+
+def _axis_of(a, k):
+    return a[1] if len(a) > 1 else k.get('axis')
+
+
 def np_max(I, a, k, ismax=True):
     x = a[0]
+    if set(k) - {'axis'} or len(a) > 2:
+        raise Unsupported('numpy max/min with options %r' % sorted(k))
+    axis = _axis_of(a, k)
     if Mo.is_list(x) and x.kind == 'clist':
         items = I.st.heap[x]
         if items and Mo.is_list(items[0]):
-            flat = []
-            for r in items:
-                flat.extend(Mo.seq_items(I, r) if r.kind == 'clist' else _unsup('max of mixed 2d'))
-            return b_max(I, [tuple(flat)], {}, ismax)
+            return nd_axis_reduce(I, x, axis, lambda vals: b_max(I, [tuple(vals)], {}, ismax), 'max/min')
     return b_max(I, [x], {}, ismax)
+
+
+def np_ptp(I, a, k):
+    x = a[0]
+    if set(k) - {'axis'} or len(a) > 2:
+        raise Unsupported('numpy.ptp with options')
+
+    def f(vals):
+        if not vals:
+            raise PyExc('ValueError', 'zero-size array to reduction operation')
+        return Mo.binop(I, ast.Sub(), b_max(I, [tuple(vals)], {}, True), b_max(I, [tuple(vals)], {}, False))
+    return nd_axis_reduce(I, x, _axis_of(a, k), f, 'ptp')
+
+
+def np_sum(I, a, k):
+    x = a[0]
+    if set(k) - {'axis', 'dtype'} or len(a) > 2:
+        raise Unsupported('numpy.sum with options %r' % sorted(k))
+    axis = _axis_of(a, k)
+    dt = Mo.dtype_name(k.get('dtype'))
+
+    def count(vals):
+        # a COUNT of boolean entries along an axis: each symbolic one is decided (one path per truth value), so the
+        # counts are concrete (they are used as positions by cumsum / split)
+        if vals and all(numkind(v) == 'bool' for v in vals) and any(isinstance(v, SV) for v in vals):
+            n = 0
+            for v in vals:
+                t = I.truth_term(v)
+                n += 1 if (t if isinstance(t, bool) else I.st.branch(t)) else 0
+            return n
+        return b_sum(I, [tuple(vals)], {})
+    r = None
+    if Mo.is_list(x) and x.kind == 'clist':
+        items = I.st.heap[x]
+        if items and Mo.is_list(items[0]):
+            r = nd_axis_reduce(I, x, axis, count if axis is not None else (lambda vals: b_sum(I, [tuple(vals)], {})), 'sum')
+    if r is None:
+        if axis not in (None, 0, -1):
+            raise PyExc('AxisError', 'axis out of bounds')
+        r = b_sum(I, [x], {})
+    return Mo.cast_value(I, r, dt) if dt is not None else r
+
+
+def np_cumsum(I, a, k):
+    items = Mo.seq_items(I, a[0]) if Mo.is_list(a[0]) or isinstance(a[0], tuple) else None
+    if items is None or k or len(a) > 1 or any(Mo.is_list(v) for v in items):
+        raise Unsupported('numpy.cumsum of a symbolic-length / nested sequence')
+    out, acc = [], 0
+    for v in items:
+        acc = Mo.binop(I, ast.Add(), acc, v)
+        out.append(acc)
+    return I.st.alloc('clist', out, nd=True)
+
+
+def np_split(I, a, k):
+    """numpy.split(ary, indices): the pieces ary[0:i0], ary[i0:i1], ..., ary[ik:] along the first axis"""
+    items = Mo.seq_items(I, a[0]) if Mo.is_list(a[0]) else None
+    cuts = Mo.seq_items(I, a[1]) if Mo.is_list(a[1]) or isinstance(a[1], tuple) else None
+    if items is None or cuts is None or k or len(a) > 2 or any(not isinstance(c, int) or isinstance(c, bool) for c in cuts):
+        raise Unsupported('numpy.split at symbolic positions / into equal sections')
+    out, lo = [], 0
+    for c in list(cuts) + [None]:
+        out.append(I.st.alloc('clist', items[lo:c], nd=True))
+        lo = c
+    return I.st.alloc('clist', out)
+
+
+def np_where(I, a, k):
+    """numpy.where(cond) for a concrete-shaped boolean array: the tuple of index arrays of the true entries.  A symbolic
+    entry is DECIDED (one path per truth value), so the result is concrete on each path."""
+    if len(a) != 1 or k:
+        raise Unsupported('numpy.where(cond, x, y)')
+    n = nd_nested(I, a[0])
+    if n is None:
+        raise Unsupported('numpy.where of an array of symbolic shape')
+    shp = nd_shape(n)
+    if len(shp) == 0:
+        n, shp = [n], (1,)
+    if len(shp) > 2:
+        raise Unsupported('numpy.where of a %d-d array' % len(shp))
+    idx = [[] for _ in shp]
+
+    def truth(v):
+        t = I.truth_term(v)
+        return t if isinstance(t, bool) else I.st.branch(t)
+    if len(shp) == 1:
+        for i, v in enumerate(n):
+            if truth(v):
+                idx[0].append(i)
+    else:
+        for i, row in enumerate(n):
+            for j, v in enumerate(row):
+                if truth(v):
+                    idx[0].append(i)
+                    idx[1].append(j)
+    return tuple(I.st.alloc('clist', list(ix), nd=True) for ix in idx)
 
 
 def np_ravel(I, a, k):
@@ -1104,6 +1319,24 @@ def np_transpose(I, x):
     return x
 
 
+def np_triu_indices(I, a, k):
+    n = a[0]
+    m = k.get('m', a[2] if len(a) > 2 else None)
+    kk = k.get('k', a[1] if len(a) > 1 else 0)
+    if not all(isinstance(v, int) and not isinstance(v, bool) for v in (n, kk)) or m is not None:
+        raise Unsupported('triu_indices of a symbolic size')
+    rows = [i for i in range(n) for j in range(n) if j - i >= kk]
+    cols = [j for i in range(n) for j in range(n) if j - i >= kk]
+    return (I.st.alloc('clist', rows, nd=True), I.st.alloc('clist', cols, nd=True))
+
+
+def np_subtract_outer(I, a, k):
+    x, y = Mo.seq_items(I, a[0]), Mo.seq_items(I, a[1])
+    if x is None or y is None or any(Mo.is_list(v) for v in x + y):
+        raise Unsupported('subtract.outer of symbolic-length / nested operands')
+    return nd_build(I, [[Mo.binop(I, ast.Sub(), u, v) for v in y] for u in x])
+
+
 def np_seterr(I, a, k):
     return I.st.alloc('dict', {'invalid': 'warn', 'divide': 'warn', 'over': 'warn', 'under': 'ignore'})
 
@@ -1210,7 +1443,14 @@ def lib_lookup(I, dotted):
         'numpy.isinf': Builtin('numpy.isinf', np_isinf),
         'numpy.log': Builtin('numpy.log', np_log),
         'numpy.ndarray': Builtin('numpy.ndarray', lambda I_, a, k: _unsup('ndarray()')),
-        'numpy.sum': Builtin('numpy.sum', lambda I_, a, k: b_sum(I_, a[:1], {})),
+        'numpy.sum': Builtin('numpy.sum', np_sum),
+        'numpy.ptp': Builtin('numpy.ptp', np_ptp),
+        'numpy.cumsum': Builtin('numpy.cumsum', np_cumsum),
+        'numpy.split': Builtin('numpy.split', np_split),
+        'numpy.triu_indices': Builtin('numpy.triu_indices', np_triu_indices),
+        'numpy.subtract': ModRef('numpy.subtract'),
+        'numpy.subtract.outer': Builtin('numpy.subtract.outer', np_subtract_outer),
+        'numpy.where': Builtin('numpy.where', np_where),
         'numpy.add': ModRef('numpy.add'),
         'numpy.add.reduce': Builtin('numpy.add.reduce', np_add_reduce),
         'numpy.float64': TypeTag('float'),
